@@ -220,6 +220,32 @@ func runC07(r *Run) {
 				ro.Instance(fnName(fn)+"|bytewrite", true, nil)
 				ro.Violation(fn, instrPos(in), "write into "+exprDepth(dst, 0), "message bytes are overwritten by a getter/checker")
 			}
+			// a digest summed into a view of the message: Sum appends behind the view's length, so only the
+			// zero-length view at the very end of Raw keeps the visible bytes untouched
+			if c, ok := in.(*ssa.Call); ok {
+				var scratch []ssa.Value
+				if c.Call.IsInvoke() && c.Call.Method.Name() == "Sum" && len(c.Call.Args) == 1 {
+					scratch = append(scratch, c.Call.Args[0])
+				} else if sc := c.Call.StaticCallee(); sc != nil && p.isLibFn(sc) {
+					for _, i := range sumScratchParams(p, sc, map[*ssa.Function]bool{}) {
+						if i < len(c.Call.Args) {
+							scratch = append(scratch, c.Call.Args[i])
+						}
+					}
+				}
+				for _, sv := range scratch {
+					if isNilConst(sv) || !messageDerived(sv, 0) {
+						continue
+					}
+					if _, isParam := sliceRoot(sv).(*ssa.Parameter); isParam {
+						continue // a helper's own parameter: judged at the call sites
+					}
+					ro.Instance(fnName(fn)+"|sumscratch", true, nil)
+					if !isSpareCapacityView(sv) {
+						ro.Violation(fn, instrPos(in), "digest summed into "+exprDepth(sv, 0), "the digest is appended behind a view that ends inside the buffer: when bytes follow the message in Raw (Decode keeps them) the checker overwrites up to 20 visible bytes")
+					}
+				}
+			}
 		})
 	}
 	ro.Done()
@@ -301,6 +327,64 @@ func byteWriteDst(in ssa.Instruction) ssa.Value {
 		}
 	}
 	return nil
+}
+
+// sumScratchParams: indices (into Params, receiver included) of the slice parameters of fn that reach the
+// argument of a hash Sum call, directly or through a module callee: Sum appends the digest behind them.
+func sumScratchParams(p *Prog, fn *ssa.Function, onStack map[*ssa.Function]bool) []int {
+	if fn == nil || fn.Blocks == nil || onStack[fn] {
+		return nil
+	}
+	onStack[fn] = true
+	defer delete(onStack, fn)
+	idx := map[*ssa.Parameter]int{}
+	for i, pa := range fn.Params {
+		idx[pa] = i
+	}
+	found := map[int]bool{}
+	var root func(v ssa.Value, depth int)
+	root = func(v ssa.Value, depth int) {
+		if depth > 6 {
+			return
+		}
+		switch x := v.(type) {
+		case *ssa.Parameter:
+			if i, ok := idx[x]; ok {
+				found[i] = true
+			}
+		case *ssa.Slice:
+			root(x.X, depth+1)
+		case *ssa.ChangeType:
+			root(x.X, depth+1)
+		case *ssa.Phi:
+			for _, e := range x.Edges {
+				root(e, depth+1)
+			}
+		}
+	}
+	eachInstr(fn, func(b *ssa.BasicBlock, i int, in ssa.Instruction) {
+		c, ok := in.(*ssa.Call)
+		if !ok {
+			return
+		}
+		if c.Call.IsInvoke() && c.Call.Method.Name() == "Sum" && len(c.Call.Args) == 1 {
+			root(c.Call.Args[0], 0)
+			return
+		}
+		if sc := c.Call.StaticCallee(); sc != nil && p.isLibFn(sc) {
+			for _, j := range sumScratchParams(p, sc, onStack) {
+				if j < len(c.Call.Args) {
+					root(c.Call.Args[j], 0)
+				}
+			}
+		}
+	})
+	var out []int
+	for i := range found {
+		out = append(out, i)
+	}
+	sort.Ints(out)
+	return out
 }
 
 // isSpareCapacityView: x[len(x):] (zero-length view behind the visible bytes).
@@ -423,15 +507,46 @@ func checkHelperConds(r *Run, rc *RuleCtx) map[string]string {
 		rc.Fail("hmac.Equal", "function not found")
 	} else {
 		ok := false
-		for _, ret := range returnsOf(eq) {
-			if b, isB := ret.Results[0].(*ssa.BinOp); isB && b.Op == token.EQL {
+		var other *ssa.Return
+		var classify func(v ssa.Value, depth int) int // 1 canonical, 0 constant false, -1 anything else
+		classify = func(v ssa.Value, depth int) int {
+			if b, isB := v.(*ssa.BinOp); isB && b.Op == token.EQL {
 				c, isC := b.X.(*ssa.Call)
 				one, isOne := constInt(b.Y)
 				if isC && isOne && one == 1 && isPkgFuncCall(c, "crypto/subtle", "ConstantTimeCompare") &&
 					len(c.Call.Args) == 2 && c.Call.Args[0] == ssa.Value(eq.Params[0]) && c.Call.Args[1] == ssa.Value(eq.Params[1]) {
-					ok = true
+					return 1
 				}
 			}
+			if c, isC := v.(*ssa.Const); isC && c.Value != nil && c.Value.String() == "false" {
+				return 0
+			}
+			if ph, isPhi := v.(*ssa.Phi); isPhi && depth < 3 {
+				res := 0
+				for _, e := range ph.Edges {
+					switch classify(e, depth+1) {
+					case 1:
+						res = 1
+					case -1:
+						return -1
+					}
+				}
+				return res
+			}
+			return -1
+		}
+		for _, ret := range returnsOf(eq) {
+			// every way of answering true is the whole-slice constant-time comparison; an early
+			// `return false` (different lengths) is the only other answer allowed
+			switch classify(ret.Results[0], 0) {
+			case 1:
+				ok = true
+			case -1:
+				other = ret
+			}
+		}
+		if other != nil {
+			ok = false
 		}
 		rc.Instance("hmac.Equal", true, map[string]string{"helper": "hmac.Equal", "is": "subtle.ConstantTimeCompare(mac1, mac2) == 1"})
 		if !ok {
